@@ -129,6 +129,46 @@ Section Proofs.
       unfold made_by in Hk. rewrite Hk in Hs. apply sign_inj in Hs. subst k'. apply candidates_trusted; exact Hin.
   Qed.
 
+  (* ---- messages with several signed elements ---- *)
+  Lemma accept_parts_true (xs : list (bool * input cert msg sig)) :
+    fst (accept_parts verify readable blank xs) = true <->
+    forall x, In x (map snd xs) -> fst (accept verify readable blank x) = true.
+  Proof.
+    induction xs as [|[req x] r IH]; cbn [accept_parts map snd].
+    - split; [intros _ x []|reflexivity].
+    - destruct (fst (accept verify readable blank x)) eqn:E.
+      + destruct (accept_parts verify readable blank r) as [ok hs]. cbn [fst] in *. rewrite IH. split.
+        * intros H y [<-|Hy]; [exact E|exact (H y Hy)].
+        * intros H y Hy. apply H. right; exact Hy.
+      + cbn [fst]. split; [discriminate|]. intros H. rewrite <- E. apply H. left; reflexivity.
+  Qed.
+
+  Lemma accept_parts_handed (xs : list (bool * input cert msg sig)) :
+    Forall2 (fun x h => forall c, In c h -> In c (candidates blank x)) (map snd xs)
+            (snd (accept_parts verify readable blank xs)).
+  Proof.
+    induction xs as [|[req x] r IH]; cbn [accept_parts map snd]; [constructor|].
+    destruct (fst (accept verify readable blank x)).
+    - destruct (accept_parts verify readable blank r) as [ok hs]. cbn [snd] in *. constructor; [|exact IH].
+      intros c Hc. exact (accept_handed _ _ Hc).
+    - cbn [snd]. constructor.
+      + intros c Hc. destruct req; [exact (accept_handed _ _ Hc)|].
+        apply in_app_or in Hc as [Hc|Hc]; exact (accept_handed _ _ Hc).
+      + clear IH. induction r as [|y r' IHr]; cbn [map]; constructor; [intros c []|exact IHr].
+  Qed.
+
+  (* every signature of an accepted message was made by a key trusted for the element it signs *)
+  Lemma accept_msg_sound (xs : list (bool * input cert msg sig)) :
+    msg_sound cert_of sign blank (map snd xs) (accept_msg verify readable blank xs).
+  Proof.
+    unfold msg_sound, accept_msg. cbn [fst snd]. split.
+    - pose proof (accept_parts_handed xs) as HF.
+      induction HF as [|x h l l' Hh _ IHF]; constructor; [|exact IHF].
+      intros c Hc. apply candidates_trusted, Hh, Hc.
+    - intros H x Hx. apply andb_true_iff in H as [H _]. pose proof (proj1 (accept_parts_true xs) H x Hx) as Hax.
+      destruct (accept_sound x) as (_ & H2 & H3). split; [exact (H2 Hax)|exact (H3 Hax)].
+  Qed.
+
   (* completeness needs one more fact about the world: a certificate that verifies something loads *)
   Hypothesis verify_readable : forall c mm ss, verify c mm ss = true -> readable c = true.
 
@@ -149,6 +189,22 @@ Section Proofs.
   Lemma trust_holds (x : input cert msg sig) : spec cert_of sign blank x (accept verify readable blank x).
   Proof. split; [apply accept_sound|apply accept_complete]. Qed.
 
+  Lemma accept_msg_complete (xs : list (bool * input cert msg sig)) :
+    msg_complete cert_of sign blank (map snd xs) (accept_msg verify readable blank xs).
+  Proof.
+    unfold msg_complete, accept_msg. cbn [fst]. intros [e H]. apply andb_true_iff. split.
+    - apply accept_parts_true. intros x Hx. destruct (H x Hx) as (k & Hk & He & Hp).
+      exact (accept_complete x k e Hk He Hp).
+    - destruct (map snd xs) as [|x r]; [reflexivity|]. cbn [head_issuer_ok].
+      destruct (H x (or_introl eq_refl)) as (_ & _ & He & _). rewrite He.
+      apply forallb_forall. intros y Hy. destruct (H y (or_intror Hy)) as (_ & _ & Hey & _).
+      unfold issuer_is. rewrite Hey. apply String.eqb_refl.
+  Qed.
+
+  Lemma message_trust (xs : list (bool * input cert msg sig)) :
+    msg_spec cert_of sign blank (map snd xs) (accept_msg verify readable blank xs).
+  Proof. split; [apply accept_msg_sound|apply accept_msg_complete]. Qed.
+
   (* corollaries named in the property text (defaults: only_md = true) *)
   Lemma unknown_issuer_rejected (x : input cert msg sig) :
     only_md x = true -> (forall e, claimed x = Some e -> lookup_md e (md x) = None) ->
@@ -168,8 +224,8 @@ Section Proofs.
     destruct o as [m'| |q]; cbn [run_ops]; unfold nchecks in *; cbn [filter is_check length]; auto.
   Qed.
 
-  Lemma run_ops_spec (P : input cert msg sig -> bool * list cert -> Prop) :
-    (forall x, P x (accept verify readable blank x)) ->
+  Lemma run_ops_spec (P : list (input cert msg sig) -> mout cert -> Prop) :
+    (forall xs, P (map snd xs) (accept_msg verify readable blank xs)) ->
     forall ops init only, seq_spec P init only ops (run_ops verify readable blank init only ops).
   Proof.
     intros HP ops. induction ops as [|o r IH]; intros init only; split; try apply run_ops_length.
@@ -182,37 +238,64 @@ Section Proofs.
         destruct (IH init only) as [_ H]. destruct (H pre' q post eq_refl) as [o [Hn Ho]].
         exists o. split; [exact Hn|exact Ho].
       + destruct pre as [|p pre'].
-        * cbn in E. injection E as -> _. exists (accept verify readable blank (at_md init only q)).
-          split; [reflexivity|apply HP].
+        * cbn in E. injection E as -> _.
+          exists (accept_msg verify readable blank (map (fun q1 => (q_insist q1, at_md init only q1)) q)).
+          split; [reflexivity|]. cbn [loaded fold_left].
+          replace (map (at_md init only) q) with (map snd (map (fun q1 => (q_insist q1, at_md init only q1)) q));
+            [apply HP|]. rewrite map_map. reflexivity.
         * cbn in E. injection E as <- ->.
           destruct (IH init only) as [_ H]. destruct (H pre' q post eq_refl) as [o [Hn Ho]].
           exists o. split; [exact Hn|exact Ho].
   Qed.
 
   Lemma receiver_trust ops init only :
-    seq_spec (spec cert_of sign blank) init only ops (run_ops verify readable blank init only ops).
-  Proof. apply run_ops_spec. exact trust_holds. Qed.
+    seq_spec (msg_spec cert_of sign blank) init only ops (run_ops verify readable blank init only ops).
+  Proof. apply run_ops_spec. exact message_trust. Qed.
 
-  (* the property text's "loaded metadata" made explicit: a key that the set loaded now does not
-     publish for the claimed issuer does not validate, whatever an earlier set published and whatever
-     was verified before the reload *)
-  Lemma withdrawn_key_rejected pre mdx post q k e init only :
-    q_s q = sign k (q_m q) -> q_claimed q = Some e -> only = true ->
+  (* the property text's "loaded metadata" made explicit: a message that carries a signature made by a key
+     which the set loaded now does not publish for the issuer named in the signed element is rejected,
+     whatever an earlier set published, whatever was verified before the reload and whatever other (good)
+     signatures the message carries *)
+  Definition parts_at (mdx : metadata cert) (only : bool) (qs : list (query cert msg sig)) :=
+    map (fun q => (q_insist q, at_md mdx only q)) qs.
+
+  Lemma withdrawn_key_rejected pre mdx post qs q k e init only :
+    In q qs -> q_s q = sign k (q_m q) -> q_claimed q = Some e -> only = true ->
     ~ published_for_signing blank mdx e (cert_of k) ->
-    nth_error (run_ops verify readable blank init only (pre ++ Reload mdx :: Check q :: post)) (nchecks pre) =
-      Some (accept verify readable blank (at_md mdx only q))
-    /\ fst (accept verify readable blank (at_md mdx only q)) = false.
+    nth_error (run_ops verify readable blank init only (pre ++ Reload mdx :: Check qs :: post)) (nchecks pre) =
+      Some (accept_msg verify readable blank (parts_at mdx only qs))
+    /\ fst (accept_msg verify readable blank (parts_at mdx only qs)) = false.
   Proof.
-    intros Hs Hc Ho Hn. split.
+    intros Hq Hs Hc Ho Hn. split.
     - revert init. induction pre as [|o pre' IH]; intros init; [reflexivity|].
       destruct o as [m'| |q0]; cbn [app run_ops]; unfold nchecks in *; cbn [filter is_check length nth_error]; apply IH.
-    - destruct (fst (accept verify readable blank (at_md mdx only q))) eqn:Ea; [|reflexivity]. exfalso.
-      destruct (accept_sound (at_md mdx only q)) as (_ & _ & H3).
-      specialize (H3 Ea k Hs). destruct H3 as [[e' [He' Hp]]|[Hf _]].
+    - destruct (fst (accept_msg verify readable blank (parts_at mdx only qs))) eqn:Ea; [|reflexivity]. exfalso.
+      destruct (accept_msg_sound (parts_at mdx only qs)) as (_ & H2).
+      assert (Hin : In (at_md mdx only q) (map snd (parts_at mdx only qs))).
+      { unfold parts_at. rewrite map_map. cbn [snd]. exact (in_map _ _ _ Hq). }
+      destruct (H2 Ea (at_md mdx only q) Hin) as [_ H3].
+      specialize (H3 k Hs). destruct H3 as [[e' [He' Hp]]|[Hf _]].
       + cbn in He'. rewrite Hc in He'. injection He' as <-. exact (Hn Hp).
       + cbn in Hf. congruence.
   Qed.
 End Proofs.
+
+(* a message with ONE signed element: the message requirement is the per-signature requirement *)
+Lemma msg_spec_single (key cert msg sig : Type) (cert_of : key -> cert) (sign : key -> msg -> sig) (blank : cert -> bool)
+  (x : input cert msg sig) (b : bool) (h : list cert) :
+  msg_spec cert_of sign blank [x] (b, [h]) <-> spec cert_of sign blank x (b, h).
+Proof.
+  unfold msg_spec, msg_sound, msg_complete, spec, sound, complete. cbn [fst snd]. split.
+  - intros [[HF HS] HC]. inversion HF as [|x0 h0 l l' Hh _]; subst. repeat split.
+    + exact Hh.
+    + intros Hb. exact (proj1 (HS Hb x (or_introl eq_refl))).
+    + intros Hb. exact (proj2 (HS Hb x (or_introl eq_refl))).
+    + intros k e Hk He Hp. apply HC. exists e. intros y [<-|[]]. exists k. auto.
+  - intros [(Hh & H2 & H3) HC]. split; [split|].
+    + constructor; [exact Hh|constructor].
+    + intros Hb y [<-|[]]. split; [exact (H2 Hb)|exact (H3 Hb)].
+    + intros [e He]. destruct (He x (or_introl eq_refl)) as (k & Hk & Hc & Hp). exact (HC k e Hk Hc Hp).
+Qed.
 
 (* ---- term-algebra instance: the hypotheses are satisfiable, and the model runs ---- *)
 Definition ikey := nat.
@@ -248,8 +331,12 @@ Lemma instance_trust (x : input icert imsg isig) :
   spec icert_of isign iblank x (accept iverify ireadable iblank x).
 Proof. apply trust_holds; [exact iverify_spec|exact isign_inj|exact iverify_readable]. Qed.
 
+Lemma instance_message (xs : list (bool * input icert imsg isig)) :
+  msg_spec icert_of isign iblank (map snd xs) (accept_msg iverify ireadable iblank xs).
+Proof. apply message_trust; [exact iverify_spec|exact isign_inj|exact iverify_readable]. Qed.
+
 Lemma instance_receiver ops init only :
-  seq_spec (spec icert_of isign iblank) init only ops (run_ops iverify ireadable iblank init only ops).
+  seq_spec (msg_spec icert_of isign iblank) init only ops (run_ops iverify ireadable iblank init only ops).
 Proof. apply receiver_trust; [exact iverify_spec|exact isign_inj|exact iverify_readable]. Qed.
 
 (* non-vacuity: metadata with a signing, a rotated signing and an encryption-only key *)
@@ -268,12 +355,12 @@ Proof. vm_compute. repeat split; reflexivity. Qed.
 Example rotation_over_reloads :
   let g1 : metadata icert := [("idp", [[(Some Signing, Gd 1)]])] in
   let g2 : metadata icert := [("idp", [[(Some Signing, Gd 2)]]); ("new", [[(None, Gd 6)]])] in
-  let ck e k d := Check (Build_query (Some e) [] d 7 (isign k 7)) in
+  let ck e k d := Check [Build_query (Some e) [] d 7 (isign k 7) true] in
   run_ops iverify ireadable iblank g1 true
     [ck "idp" 1 false; ck "idp" 2 false; ck "new" 6 true; ReloadFailed; ck "idp" 1 true;
      Reload g2; ck "idp" 1 false; ck "idp" 2 false; ck "idp" 1 true; ck "new" 6 true]
-  = [(true, [Gd 1]); (false, [Gd 1]); (false, []); (true, [Gd 1]);
-     (false, [Gd 2]); (true, [Gd 2]); (false, [Gd 2]); (true, [Gd 6])].
+  = [(true, [[Gd 1]]); (false, [[Gd 1]]); (false, [[]]); (true, [[Gd 1]]);
+     (false, [[Gd 2]]); (true, [[Gd 2]]); (false, [[Gd 2]]); (true, [[Gd 6]])].
 Proof. vm_compute. reflexivity. Qed.
 
 (* 2dad6239: an unreadable certificate ahead of the signer's one is passed over on both paths (the XML path
@@ -298,4 +385,21 @@ Example keydescriptor_without_certificate :
        (Build_input [("idp", [[(None, Bl 0)]])] false (Some "idp") [Gd 6] false 7 (isign 6 7)) = (true, [Gd 6])
   /\ accept_v0 iverify ireadable iblank (Build_input mdx true (Some "idp") [] false 7 (isign 1 7)) = (false, [])
   /\ accept_v0 iverify ireadable iblank (Build_input mdx false (Some "idp") [Gd 6] false 7 (isign 6 7)) = (true, [Gd 6]).
+Proof. vm_compute. repeat split; reflexivity. Qed.
+
+(* non-vacuity of the message level: a Response signed by the issuer's key around an Assertion -- the inner
+   signature counts on its own: made by an attacker key or by another member's key the message is rejected (the
+   outer signature does not cover for it), made by the rotated key it is accepted; an Assertion that names another
+   member as issuer is checked against THAT member's keys; a bad outer signature ends the processing (nothing of
+   the Assertion reaches a verifier) *)
+Example doubly_signed_message :
+  let mdx : metadata icert := [("idp", [[(Some Signing, Gd 1); (Some Signing, Gd 2); (Some Encryption, Gd 3)]]); ("other", [[(None, Gd 4)]])] in
+  let p e k := Build_input mdx true (Some e) [] false 7 (isign k 7) in
+  let two a b := [(true, a); (false, b)] in
+  accept_msg iverify ireadable iblank (two (p "idp" 1) (p "idp" 2)) = (true, [[Gd 1]; [Gd 1; Gd 2]])
+  /\ accept_msg iverify ireadable iblank (two (p "idp" 1) (p "idp" 6)) = (false, [[Gd 1]; [Gd 1; Gd 2; Gd 1; Gd 2]])
+  /\ accept_msg iverify ireadable iblank (two (p "idp" 1) (p "idp" 4)) = (false, [[Gd 1]; [Gd 1; Gd 2; Gd 1; Gd 2]])
+  /\ accept_msg iverify ireadable iblank (two (p "idp" 1) (p "other" 1)) = (false, [[Gd 1]; [Gd 4; Gd 4]])
+  /\ accept_msg iverify ireadable iblank (two (p "idp" 1) (p "other" 4)) = (false, [[Gd 1]; [Gd 4]])
+  /\ accept_msg iverify ireadable iblank (two (p "idp" 6) (p "idp" 1)) = (false, [[Gd 1; Gd 2]; []]).
 Proof. vm_compute. repeat split; reflexivity. Qed.
